@@ -138,6 +138,10 @@ struct Ctx
   const char * cur_check = "";
   size_t nontrivial_cap = 1u << 17; // per shard (quick); thorough raises it to 2^21
   bool sampling = false;
+  // differential replay of other properties' workloads (C08): every guarded call is reported to call_hook; verdicts of the
+  // foreign judges are suppressed, only the hook may record violations
+  void (*call_hook)(Ctx &, fn2, int64_t, int64_t, const CallRes &) = nullptr;
+  bool suppress_foreign = false, in_hook = false;
   std::vector<int64_t> cur_results; // return values of the library calls made while judging the sampled case
 
   uint64_t n(uint64_t quick, uint64_t thorough_n) const
